@@ -66,9 +66,84 @@ C12(c) ==
   ELSE LET d == FirstDiff(c.gin, c.gout, c.nq) IN
        IF d = -1 THEN <<"ok", "", Len(NonBar(c.gin)) - Len(NonBar(c.gout))>> ELSE <<"fail", "different-unitary", d>>
 
+---------------------------------------------------------------------------
+(* C14.  case: steps = << [op, ..., before, after, exc] >> where before / after are the snapshots  *)
+(* << [nq, gates] >> of ALL live objects (object k at index k+1) around the step                    *)
+Remap(gs, f) == [j \in 1..Len(gs) |-> [gs[j] EXCEPT !.w = [k \in 1..Len(gs[j].w) |-> f[gs[j].w[k] + 1]]]]
+RECURSIVE Power(_, _)
+Power(gs, n) == IF n = 0 THEN <<>> ELSE gs \o Power(gs, n - 1)
+SameU(g1, g2, nq) == IF AnyOpaque(g1) \/ AnyOpaque(g2) THEN Cores(NonBar(g1)) = Cores(NonBar(g2)) ELSE SameUnitary(g1, g2, nq)
+
+StepOK(st) ==
+  LET B == st.before  A == st.after  op == st.op
+      unchanged(S) == \A k \in S : k <= Len(A) /\ A[k].nq = B[k].nq /\ Cores(A[k].gates) = Cores(B[k].gates)
+      all == 1..Len(B)
+      new == A[Len(A)]
+  IN
+  IF st.exc # "" THEN "operation-raised"
+  ELSE IF op = "new" THEN (IF Len(A) = Len(B) + 1 /\ unchanged(all) THEN "ok" ELSE "frame")
+  ELSE IF op \in {"append_circuit", "iadd"} THEN
+       LET d == st.dst + 1  s == st.src + 1
+           f == IF op = "iadd" THEN [k \in 1..B[s].nq |-> k - 1] ELSE st.qubits
+       IN IF Len(A) # Len(B) \/ ~unchanged(all \ {d}) THEN "operand-or-bystander-modified"
+          ELSE IF A[d].nq # B[d].nq THEN "qubit-count-changed"
+          ELSE IF SameU(A[d].gates, B[d].gates \o Remap(B[s].gates, f), B[d].nq) THEN "ok" ELSE "not-the-composition"
+  ELSE IF op = "add" THEN
+       IF Len(A) # Len(B) + 1 \/ ~unchanged(all) THEN "operand-or-bystander-modified"
+       ELSE IF new.nq # B[st.a + 1].nq THEN "qubit-count-changed"
+       ELSE IF SameU(new.gates, B[st.a + 1].gates \o B[st.b + 1].gates, new.nq) THEN "ok" ELSE "not-the-composition"
+  ELSE IF op = "repeat" THEN
+       IF Len(A) # Len(B) + 1 \/ ~unchanged(all) THEN "operand-or-bystander-modified"
+       ELSE IF new.nq # B[st.a + 1].nq THEN "qubit-count-changed"
+       ELSE IF SameU(new.gates, Power(B[st.a + 1].gates, st.n), new.nq) THEN "ok" ELSE "not-the-n-fold-composition"
+  ELSE IF op = "copy" THEN
+       IF Len(A) # Len(B) + 1 \/ ~unchanged(all) THEN "operand-or-bystander-modified"
+       ELSE IF new.nq # B[st.a + 1].nq THEN "qubit-count-changed"
+       ELSE IF SameU(new.gates, B[st.a + 1].gates, new.nq) THEN "ok" ELSE "copy-acts-differently"
+  ELSE IF op = "gate" THEN
+       LET d == st.dst + 1 IN
+       IF Len(A) # Len(B) \/ ~unchanged(all \ {d}) THEN "mutation-shows-in-another-object"
+       ELSE IF Cores(A[d].gates) = Cores(Append(B[d].gates, st.g)) THEN "ok" ELSE "append-gate"
+  ELSE IF op \in {"rmid", "qft_iqft"} THEN
+       LET a == st.a + 1 IN
+       IF Len(A) # Len(B) \/ ~unchanged(all \ {a}) THEN "operand-or-bystander-modified"
+       ELSE IF A[a].nq # B[a].nq THEN "qubit-count-changed"
+       ELSE IF SameU(A[a].gates, B[a].gates, B[a].nq) THEN "ok"
+       ELSE IF op = "rmid" THEN "remove_identities-changed-the-action" ELSE "iqft-does-not-undo-qft"
+  ELSE "unknown-op"
+
+C14(c) ==
+  LET bad == {k \in 1..Len(c.steps) : StepOK(c.steps[k]) # "ok"} IN
+  IF bad = {} THEN <<"ok", "", Len(c.steps)>>
+  ELSE <<"fail", StepOK(c.steps[MinOf(bad)]), MinOf(bad) - 1>>
+
+---------------------------------------------------------------------------
+(* C13.  case: target, mode, gates (the circuit), nq, neutral (gate list read back from the export), *)
+(* nq_export, exc, structural (TRUE: the target keeps gates one for one), and for QASM:              *)
+(* formals (circuit index each declared formal name maps to), call (operand indices of the call)     *)
+\* "the same gates in the same order on the same qubits", up to the order of gates that share no
+\* qubit (a target framework may store independent instructions in another order): for every qubit,
+\* the sequence of gates touching it is the same
+OnQubit(gs, q) == Cores(SelectSeq(gs, LAMBDA g : \E k \in 1..Len(g.w) : g.w[k] = q))
+C13(c) ==
+  LET src == NonBar(c.gates)  exp == NonBar(c.neutral) IN
+  IF c.exc # "" THEN <<"fail", "exporter-raised", 0>>
+  ELSE IF c.nq_export # c.nq THEN <<"fail", "qubit-count-differs", c.nq_export>>
+  ELSE IF "formals" \in DOMAIN c /\ c.formals # [j \in 1..c.nq |-> j - 1] THEN <<"fail", "qasm-formals-not-one-per-qubit-in-index-order", Len(c.formals)>>
+  ELSE IF "call" \in DOMAIN c /\ c.call # [j \in 1..c.nq |-> j - 1] THEN <<"fail", "qasm-call-operands", Len(c.call)>>
+  ELSE IF ~WellFormed(c.neutral, c.nq) THEN <<"fail", "exported-gate-malformed", 0>>
+  ELSE IF c.structural /\ Len(exp) # Len(src) THEN <<"fail", "gate-count-differs", Len(exp)>>
+  ELSE IF c.structural /\ \E q \in 0..(c.nq - 1) : OnQubit(exp, q) # OnQubit(src, q)
+       THEN <<"fail", "gate-differs", MinOf({q \in 0..(c.nq - 1) : OnQubit(exp, q) # OnQubit(src, q)})>>
+  ELSE IF AnyOpaque(src) \/ AnyOpaque(exp) THEN (IF Cores(exp) = Cores(src) THEN <<"ok", "structural-only", Len(src)>> ELSE <<"fail", "phase-not-preserved", 0>>)
+  ELSE LET d == FirstDiff(src, exp, c.nq) IN
+       IF d = -1 THEN <<"ok", "", Len(src)>> ELSE <<"fail", "different-unitary", d>>
+
 Verdict(c) ==
   CASE IOEnv.PROP = "C11" -> C11(c)
+    [] IOEnv.PROP = "C13" -> C13(c)
     [] IOEnv.PROP = "C12" -> C12(c)
+    [] IOEnv.PROP = "C14" -> C14(c)
 
 Init == i = 1
 Next == /\ i <= Len(Cases)
